@@ -91,7 +91,7 @@ func runSchedule(n int, prefix []int, crc bool, op string) (choices []int, live 
 			if ended[i] {
 				continue
 			}
-			_, isEnded, ok := gate.Peek(names[i], 5*time.Second)
+			_, isEnded, ok := gate.Peek(names[i], 60*time.Second)
 			if !ok {
 				return nil, nil, nil, fmt.Errorf("client %s neither calls the store nor ends", names[i])
 			}
